@@ -480,6 +480,10 @@ class Visitor(ast.NodeVisitor):
 
         if node.id in self._name_to_value:
             result = self._name_to_value[node.id]  # type: Any
+
+            # Please see "NOTE ABOUT PLACEHOLDERS AND RE-COMPUTATION"
+            if result is PLACEHOLDER:
+                return PLACEHOLDER
         elif hasattr(builtins, node.id):
             result = getattr(builtins, node.id)
         elif node.id == "None":
